@@ -188,7 +188,9 @@ Definition corr (c : case) : Z :=
    (d) no lost wake-up: a run that ends with no goroutine enabled has finished every thread except
        possibly thread 0, which may then only be parked inside a blocking Fetch while NO attached
        waker is surely asserted (never inside Done);
-   (e) no real blocking (hung) and no panic. *)
+   (e) no real blocking (hung) and no panic;
+   (f) after Done has returned and until the next AddWaker is invoked, nothing touches the sleeper:
+       in every observed state its lists are empty and no waker refers to it. *)
 Record mst := mkM {
   m_pos : list Z;           (* where each thread is stopped *)
   m_idx : list nat;         (* number of calls each thread has invoked *)
@@ -200,6 +202,7 @@ Record mst := mkM {
   m_sure : list bool;       (* per waker: an assertion is surely pending *)
   m_att : list bool;        (* per waker: AddWaker returned and no Done invoked since *)
   m_lastid : list Z;        (* per waker: id given in the last AddWaker (0 none) *)
+  m_det : bool;             (* Done has returned and no AddWaker was invoked since *)
   m_bad : bool;
   m_woke : bool; m_done : bool
 }.
@@ -222,11 +225,11 @@ Definition consume (m : mst) (w : nat) : mst :=
            (combine (m_cur m) (m_clean m)))
       (map (fun s => lset s w false) (m_snap m))
       (m_infl m) (lset (m_may m) w (0 <? nth w (m_infl m) 0)) (lset (m_sure m) w false)
-      (m_att m) (m_lastid m) (m_bad m) (m_woke m) (m_done m).
+      (m_att m) (m_lastid m) (m_det m) (m_bad m) (m_woke m) (m_done m).
 
 Definition set_bad (m : mst) (b : bool) : mst :=
   mkM (m_pos m) (m_idx m) (m_cur m) (m_clean m) (m_snap m) (m_infl m) (m_may m) (m_sure m)
-      (m_att m) (m_lastid m) (m_bad m || b) (m_woke m) (m_done m).
+      (m_att m) (m_lastid m) (m_det m) (m_bad m || b) (m_woke m) (m_done m).
 
 Fixpoint find_id (ids : list Z) (id : Z) (i : nat) : option nat :=
   match ids with
@@ -241,25 +244,25 @@ Definition invoke (m : mst) (t : nat) (c : Z) : mst :=
   let w := owk c in
   let m1 := mkM (m_pos m) (lset (m_idx m) t (S (nth t (m_idx m) O))) (lset (m_cur m) t c)
                 (m_clean m) (m_snap m) (m_infl m) (m_may m) (m_sure m) (m_att m) (m_lastid m)
-                (m_bad m) (m_woke m) (m_done m) in
+                (m_det m) (m_bad m) (m_woke m) (m_done m) in
   if k =? 1 then
     mkM (m_pos m1) (m_idx m1) (m_cur m1) (m_clean m1) (m_snap m1) (m_infl m1) (m_may m1) (m_sure m1)
-        (m_att m1) (lset (m_lastid m1) w (oarg c)) (m_bad m1) (m_woke m1) (m_done m1)
+        (m_att m1) (lset (m_lastid m1) w (oarg c)) false (m_bad m1) (m_woke m1) (m_done m1)
   else if k =? 2 then
     let quiet := map (fun n => n =? 0) (m_infl m1) in
     mkM (m_pos m1) (m_idx m1) (m_cur m1) (m_clean m1)
         (lset (m_snap m1) t (and_lists (and_lists (m_sure m1) (m_att m1)) quiet))
-        (m_infl m1) (m_may m1) (m_sure m1) (m_att m1) (m_lastid m1) (m_bad m1) (m_woke m1) (m_done m1)
+        (m_infl m1) (m_may m1) (m_sure m1) (m_att m1) (m_lastid m1) (m_det m1) (m_bad m1) (m_woke m1) (m_done m1)
   else if k =? 3 then
     mkM (m_pos m1) (m_idx m1) (m_cur m1) (m_clean m1) (m_snap m1) (m_infl m1) (m_may m1) (m_sure m1)
-        (map (fun _ => false) (m_att m1)) (m_lastid m1) (m_bad m1) (m_woke m1) true
+        (map (fun _ => false) (m_att m1)) (m_lastid m1) (m_det m1) (m_bad m1) (m_woke m1) true
   else if k =? 4 then
     mkM (m_pos m1) (m_idx m1) (m_cur m1) (lset (m_clean m1) t true) (m_snap m1)
         (lset (m_infl m1) w (nth w (m_infl m1) 0 + 1)) (lset (m_may m1) w true) (m_sure m1)
-        (m_att m1) (m_lastid m1) (m_bad m1) (m_woke m1) (m_done m1)
+        (m_att m1) (m_lastid m1) (m_det m1) (m_bad m1) (m_woke m1) (m_done m1)
   else
     mkM (m_pos m1) (m_idx m1) (m_cur m1) (m_clean m1) (lset (m_snap m1) t (m_sure m1))
-        (m_infl m1) (m_may m1) (m_sure m1) (m_att m1) (m_lastid m1) (m_bad m1) (m_woke m1) (m_done m1).
+        (m_infl m1) (m_may m1) (m_sure m1) (m_att m1) (m_lastid m1) (m_det m1) (m_bad m1) (m_woke m1) (m_done m1).
 
 Definition returned (m : mst) (t : nat) (retv : Z) : mst :=
   let code := retv / 16 in
@@ -269,10 +272,10 @@ Definition returned (m : mst) (t : nat) (retv : Z) : mst :=
   let w := owk c in
   let snap_t := nth t (m_snap m) [] in
   let m0 := mkM (m_pos m) (m_idx m) (lset (m_cur m) t 0) (m_clean m) (m_snap m) (m_infl m) (m_may m)
-                (m_sure m) (m_att m) (m_lastid m) (m_bad m) (m_woke m) (m_done m) in
+                (m_sure m) (m_att m) (m_lastid m) (m_det m) (m_bad m) (m_woke m) (m_done m) in
   if code =? 1 then
     set_bad (mkM (m_pos m0) (m_idx m0) (m_cur m0) (m_clean m0) (m_snap m0) (m_infl m0) (m_may m0) (m_sure m0)
-                 (lset (m_att m0) w true) (m_lastid m0) (m_bad m0) (m_woke m0) (m_done m0))
+                 (lset (m_att m0) w true) (m_lastid m0) (m_det m0) (m_bad m0) (m_woke m0) (m_done m0))
             (negb (k =? 1))
   else if code =? 2 then
     match find_id (m_lastid m) val O with
@@ -281,12 +284,15 @@ Definition returned (m : mst) (t : nat) (retv : Z) : mst :=
     end
   else if code =? 3 then
     set_bad m0 (negb (k =? 2) || negb (oarg c =? 0) || existsb (fun b => b) snap_t)
-  else if code =? 4 then set_bad m0 (negb (k =? 3))
+  else if code =? 4 then
+    set_bad (mkM (m_pos m0) (m_idx m0) (m_cur m0) (m_clean m0) (m_snap m0) (m_infl m0) (m_may m0) (m_sure m0)
+                 (m_att m0) (m_lastid m0) true (m_bad m0) (m_woke m0) (m_done m0))
+            (negb (k =? 3))
   else if code =? 5 then
     set_bad (mkM (m_pos m0) (m_idx m0) (m_cur m0) (m_clean m0) (m_snap m0)
                  (lset (m_infl m0) w (nth w (m_infl m0) 0 - 1)) (m_may m0)
                  (if nth t (m_clean m0) false then lset (m_sure m0) w true else m_sure m0)
-                 (m_att m0) (m_lastid m0) (m_bad m0) (m_woke m0) (m_done m0))
+                 (m_att m0) (m_lastid m0) (m_det m0) (m_bad m0) (m_woke m0) (m_done m0))
             (negb (k =? 4))
   else if code =? 6 then
     if val =? 1 then set_bad (consume m0 w) (negb (k =? 5) || negb (nth w (m_may m) false))
@@ -296,9 +302,16 @@ Definition returned (m : mst) (t : nat) (retv : Z) : mst :=
     else set_bad m0 (negb (k =? 6) || nth w snap_t false)
   else set_bad m0 true.
 
+(* some base-4 digit of the packed waker classes is 1 (a waker refers to the sleeper) *)
+Fixpoint has_digit1 (fuel : nat) (z : Z) : bool :=
+  match fuel with
+  | O => false
+  | S f => if z <=? 0 then false else ((z mod 4) =? 1) || has_digit1 f (z / 4)
+  end.
+
 Definition spec_step (progs : list (list Z)) (m : mst) (tz : Z) (o : ob) : mst :=
   match o with
-  | (pos, spos, retv, _, _, _, _, _) =>
+  | (pos, spos, retv, wsp, _, sh, lo, _) =>
       if tz <? 0 then set_bad m true else
       let t := Z.to_nat tz in
       let pre := nth t (m_pos m) (-1) in
@@ -309,7 +322,10 @@ Definition spec_step (progs : list (list Z)) (m : mst) (tz : Z) (o : ob) : mst :
       let woke := (nth O (m_pos m2) 0 =? 1) && negb (spos =? 1) in
       mkM (lset (lset (m_pos m2) t pos) O spos) (m_idx m2) (m_cur m2) (m_clean m2) (m_snap m2) (m_infl m2)
           (m_may m2) (m_sure m2) (m_att m2) (m_lastid m2)
-          (m_bad m2 || (pre =? 0) || (pre =? 1)) (m_woke m2 || woke) (m_done m2)
+          (m_det m2)
+          (m_bad m2 || (pre =? 0) || (pre =? 1) ||
+           (m_det m2 && (negb (sh =? 0) || negb (lo =? 0) || has_digit1 8 wsp)))
+          (m_woke m2 || woke) (m_done m2)
   end.
 
 Fixpoint spec_run (progs : list (list Z)) (m : mst) (sched : list Z) (obs : list ob) : mst :=
@@ -322,7 +338,7 @@ Definition spec_init (nw : nat) (progs : list (list Z)) : mst :=
   let nt := length progs in
   mkM (map (fun p => match p with [] => 0 | _ => 900 end) progs) (repeat O nt) (repeat 0 nt) (repeat false nt)
       (repeat (repeat false nw) nt) (repeat 0 nw) (repeat false nw) (repeat false nw) (repeat false nw)
-      (repeat 0 nw) false false false.
+      (repeat 0 nw) false false false false.
 
 Definition spec_final (nw : nat) (progs : list (list Z)) (sched : list Z) (obs : list ob) : mst :=
   spec_run progs (spec_init nw progs) sched obs.
